@@ -68,6 +68,8 @@ def obligations(tier, ctx):
         obs.append(Ob(name=f"nocancel_{tag}", params=[(f"g{i}", "int") for i in range(n)] + [("T", "int"), ("ra", "int")],
                       pre=[f"0 <= g{i} <= {GAP_MAX}" for i in range(n)] + [f"1 <= T <= {T_MAX}", "-1 <= ra <= 1"],
                       call=f"H.nocancel({kt!r}, {gl}, T, ra)", real=f"H.nocancel_real({kt!r}, {gl}, T, ra)", backend="P", timeout=240, family="token-never-triggered"))
+    from symcheck.runner import mirror
+    obs += mirror(obs, r"^(traffic_none|traffic_0|traffic_5|precancelled_0|ids_0)$", "F", limit=(2 if tier == "quick" else None))
     return obs
 
 
